@@ -22,7 +22,20 @@ def _init_worker():
     torch.set_num_threads(1)
 
 
+class StateTimeout(BaseException):
+    pass
+
+
+def _on_alarm(signum, frame):
+    raise StateTimeout()
+
+
+STATE_TIMEOUT = float(os.environ.get("VERIF_STATE_TIMEOUT", "900"))     # seconds per replayed state (a state takes milliseconds to seconds)
+
+
 def _run_chunk(args):
+    import signal
+    signal.signal(signal.SIGALRM, _on_alarm)
     handler_path, texts, opts = args
     modname, fname = handler_path.rsplit(":", 1)
     import importlib
@@ -36,7 +49,20 @@ def _run_chunk(args):
             problems.append({"cls": "machinery", "msg": "unparsable state: %s" % e, "key": {"cls": "machinery"}})
             continue
         try:
-            r = handler(st, opts)
+            signal.setitimer(signal.ITIMER_REAL, STATE_TIMEOUT)
+            try:
+                r = handler(st, opts)
+            finally:
+                signal.setitimer(signal.ITIMER_REAL, 0)
+        except StateTimeout:
+            # the call did not return: every property promises a result (or an exception), so this is a deviation of the
+            # property the handler serves, reported with the state for replay
+            prop = (opts or {}).get("prop") or (st.get("cfg", {}).get("op") and None)
+            problems.append({"prop": (opts or {}).get("prop"), "cls": "timeout", "op": str(st.get("cfg", st.get("case", {})).get("op", "?")),
+                             "key": {"cls": "timeout", "op": str(st.get("cfg", st.get("case", {})).get("op", "?"))},
+                             "msg": "the call did not return within %d s for state %s" % (int(STATE_TIMEOUT), json.dumps(st, default=str)[:600]),
+                             "replay": {"engine": handler_path.split(":")[0], "state": st}})
+            continue
         except Exception as e:
             problems.append({"cls": "machinery", "msg": "handler crashed: %s\n%s" % (e, traceback.format_exc()),
                              "key": {"cls": "machinery"}, "state": st})
